@@ -94,7 +94,7 @@ def one(m, keep=False):
             return name, "MUTATION-DOES-NOT-APPLY", ""
         open(p, "w").write(s.replace(old, new, 1))
         env = dict(os.environ, VERIF_REPO=top, VERIF_BUILD_SUFFIX="." + name)
-        defs = ["-DVERIF_EXCLUDE_D11", "-DVERIF_EXCLUDE_D15"]
+        defs = ["-DVERIF_EXCLUDE_D11"]
         r = subprocess.run([os.path.join(VERIF, "verif"), "harness", harness] + defs, capture_output=True, text=True, env=env)
         refuted = [l.split()[1] for l in r.stdout.splitlines() if l.strip().startswith("FAILURE") and "canary/" not in l and "reach/" not in l]
         if "NO-VERDICT" in r.stdout and label not in refuted:
